@@ -187,13 +187,13 @@ def gen_cmdline(rng, small=True):
     nl = rng.choice([0, 0, 1, 2, 3])
     loads = []
     for k in range(nl):
-        kind = rng.choice(['load', 'load', 'rlc', 'trap', 'laplace'])
+        kind = rng.choice(['load', 'load', 'rlc', 'trap', 'trap', 'laplace'])
         if kind == 'load':
             argv.append('--load=' + rng.choice(['50', '5+3j', '5-3j', '-2j', '0.5+100j', '1e3-1e-3j']))
         elif kind == 'rlc':
             argv.append('--rlc-load=' + rng.choice(['1,1e-6,1e-10', '10,,', ',2e-6,', ',,1e-10', '5,1e-6,', '50,0,1e-10', '0,0,4.7e-11', '0,3e-6,0', '50,,1e-10', '0,2e-6,3e-11', '7,0,0']))
         elif kind == 'trap':
-            argv.append('--trap-load=1,1e-5,1e-11')
+            argv.append('--trap-load=' + rng.choice(['1,1e-5,1e-11', '1,1e-5,1e-11', '2,1.2e-6,1e-10', '1.5,3.3e-6,', '1.5,3.3e-6,0', '0,2e-6,5e-11']))
         else:
             argv.append('--laplace-load-a=' + rng.choice(['1', '0,1e-9', '1,1e-8']))
             argv.append('--laplace-load-b=' + rng.choice(['50', '1,2e-6', '1,2e-6,3e-12']))
